@@ -1580,6 +1580,51 @@ package graphql
 //@   at call reportError: assert arg0 == context && len(arg2) == 1 && arg2[0] == defaultValue
 //@   ensures result0 == visitor.ActionSkip
 
+// KnownTypeNames: a named type reference is reported exactly when the schema has no type of that name; the
+// error is located at the reference, and the suggestions are ranked by suggestionList (a total order).
+//@ func KnownTypeNamesRule$5
+//@   props C02 C18 C12
+//@   nosafety
+//@   ensures !typeis(p.Node, "*ast.Named") ==> calls("reportError") == 0 && calls("Type") == 0
+//@   ensures typeis(p.Node, "*ast.Named") ==> calls("Type") == 1
+//@   at call Type: assert node.Name != nil ==> arg1 == node.Name.Value
+//@   ensures calls("Type") == 1 && isnil(lastresult("Type")) ==> calls("reportError") == 1 && calls("suggestionList") == 1
+//@   ensures calls("Type") == 1 && !isnil(lastresult("Type")) ==> calls("reportError") == 0
+//@   at call suggestionList: assert arg0 == typeNameValue && arg1 == suggestedTypes
+//@   at call reportError: assert arg0 == context && len(arg2) == 1 && typeis(arg2[0], "*ast.Named") && as(arg2[0], "*ast.Named") == node
+//@   ensures result0 == visitor.ActionNoChange
+
+// PossibleFragmentSpreads: a fragment (inline, or spread by name) is reported exactly when its type and the
+// parent type are both known and cannot overlap; located at the fragment / the spread.
+//@ func doTypesOverlap
+//@   trusted
+//@   assigns nothing
+//@ func getFragmentType
+//@   trusted
+//@   assigns nothing
+//@ func ValidationContext.ParentType
+//@   trusted
+//@   assigns nothing
+//@ func PossibleFragmentSpreadsRule$1
+//@   props C02 C18
+//@   nosafety
+//@   ensures !typeis(p.Node, "*ast.InlineFragment") || as(p.Node, "*ast.InlineFragment") == nil ==> calls("reportError") == 0 && calls("doTypesOverlap") == 0
+//@   at call doTypesOverlap: assert arg1 == lastresult("Type") && arg2 == parentType && !isnil(arg1) && !isnil(arg2)
+//@   ensures calls("doTypesOverlap") == 1 ==> (lastresult("doTypesOverlap") <==> calls("reportError") == 0) && calls("reportError") <= 1
+//@   ensures calls("doTypesOverlap") == 0 ==> calls("reportError") == 0
+//@   ensures calls("Type") == 1 && calls("ParentType") == 1 && !isnil(lastresult("Type")) && !isnil(parentType) ==> calls("doTypesOverlap") == 1
+//@   at call reportError: assert arg0 == context && len(arg2) == 1 && typeis(arg2[0], "*ast.InlineFragment") && as(arg2[0], "*ast.InlineFragment") == node
+//@ func PossibleFragmentSpreadsRule$2
+//@   props C02 C18
+//@   nosafety
+//@   ensures !typeis(p.Node, "*ast.FragmentSpread") || as(p.Node, "*ast.FragmentSpread") == nil ==> calls("reportError") == 0 && calls("doTypesOverlap") == 0
+//@   at call getFragmentType: assert arg0 == context && arg1 == fragName && (node.Name != nil ==> arg1 == node.Name.Value)
+//@   at call doTypesOverlap: assert arg1 == lastresult("getFragmentType") && arg2 == parentType && !isnil(arg1) && !isnil(arg2)
+//@   ensures calls("doTypesOverlap") == 1 ==> (lastresult("doTypesOverlap") <==> calls("reportError") == 0) && calls("reportError") <= 1
+//@   ensures calls("doTypesOverlap") == 0 ==> calls("reportError") == 0
+//@   ensures calls("getFragmentType") == 1 && calls("ParentType") == 1 && !isnil(lastresult("getFragmentType")) && !isnil(parentType) ==> calls("doTypesOverlap") == 1
+//@   at call reportError: assert arg0 == context && len(arg2) == 1 && typeis(arg2[0], "*ast.FragmentSpread") && as(arg2[0], "*ast.FragmentSpread") == node
+
 // VariablesAreInputTypes: a variable definition is reported exactly when its type is known and not an input
 // type; the error is located at the type reference.
 //@ func VariablesAreInputTypesRule$1
